@@ -15,7 +15,6 @@ import (
 	"math/rand"
 	"os"
 	"path/filepath"
-	"sort"
 	"strings"
 
 	"github.com/tsawler/tabula"
@@ -552,7 +551,4 @@ func Run(c *fw.Ctx) {
 			c.Inconclusive(fmt.Sprintf("%d of %d direct comparisons skipped because extracted fragments did not match the construction", mm, tot))
 		}
 	}
-	var feats []string
-	_ = feats
-	sort.Strings(feats)
 }
